@@ -30,7 +30,7 @@ ASSUMPTIONS = [
 TRUSTED = ["taskiq_dependencies 1.5.7 (executed)", "CPython asyncio (real, virtual clock)", "vt.sym explorer"]
 BOUNDS = {"concurrent executions": "2 (quick) / 2 and 3 (thorough) direct callbacks; 3 (quick) / 3 and 4 (thorough) messages through Receiver.listen with max_async_tasks 1 and 2", "dependency shapes": 6, "suspension points per execution": "<= 4"}
 REQUIRED_COVERS = ["override", "equal_labels", "typed_args", "interleaved_in_resolution", "nocache", "nested", "generator", "cached", "via_listen"]
-SHAPES = ("cached", "nocache_after_wait", "nested_nocache", "generator_nocache", "sync_nocache", "ctx_param_only", "equal_args_of_different_type", "equal_labels_mutated", "override_adds_nocache")
+SHAPES = ("cached", "nocache_after_wait", "nested_nocache", "generator_nocache", "sync_nocache", "ctx_param_only", "equal_args_of_different_type", "equal_labels_mutated", "no_labels_mutated", "override_adds_nocache")
 ARGS_BY_TYPE = [1, True, 1.0]
 
 
@@ -184,7 +184,7 @@ def harness(c: sym.Ctx, case: Dict[str, Any]) -> None:
             async def task(i: int, rid: str = TaskiqDepends(plain), ctx: Context = TaskiqDepends()) -> Any:  # type: ignore[misc]
                 await wait("body")
                 return (i, rid, ctx.message.task_id, dict(ctx.message.labels), list(ctx.message.args))
-        elif shape == "equal_labels_mutated":
+        elif shape in ("equal_labels_mutated", "no_labels_mutated"):
             c.cover("equal_labels")
 
             async def task(i: int, ctx: Context = TaskiqDepends()) -> Any:  # type: ignore[misc]
@@ -213,6 +213,10 @@ def harness(c: sym.Ctx, case: Dict[str, Any]) -> None:
             # every message carries the same (typed) label set
             msgs = [ackable(lab, i, encode(broker, "t", f"id{i}", [sent[i]], {"who": "same"}, labels_types={"who": 3}), False) for i in range(nmsg)]
             want_labels = [{"who": "same", "mark": i} for i in range(nmsg)]
+        elif shape == "no_labels_mutated":
+            # no message carries any label
+            msgs = [ackable(lab, i, encode(broker, "t", f"id{i}", [sent[i]], {}), False) for i in range(nmsg)]
+            want_labels = [{"mark": i} for i in range(nmsg)]
         else:
             msgs = [ackable(lab, i, encode(broker, "t", f"id{i}", [sent[i]], {"who": f"L{i}"}), False) for i in range(nmsg)]
             want_labels = [{"who": f"L{i}"} for i in range(nmsg)]
